@@ -52,6 +52,25 @@ def _formula_elements(text):
         return set()
 
 
+def stages(m):
+    """every reaction stage of a model: simulation 1, the optional second simulation, the cells of a cell model"""
+    out = [m]
+    if m.get("st2"):
+        out.append(m["st2"])
+    for c in m.get("cells") or []:
+        out.append({"eq": {"phases": c["phases"]}})
+    return out
+
+
+def stage_for(m, sim, label):
+    if m.get("cells"):
+        for c in m["cells"]:
+            if c["n"] == label:
+                return {"eq": {"phases": c["phases"]}}
+        return {}
+    return m if sim == 1 else (m.get("st2") or {})
+
+
 def system_elements(m):
     """(elements as written in the solutions, base elements of everything in the system)"""
     db = dbparse.load(m["db"])
@@ -69,7 +88,7 @@ def system_elements(m):
             ph = db.phase(s["pH_opt"].split()[0])
             if ph:
                 base |= set(ph.elements)
-    for stg in (m, m.get("st2") or {}):
+    for stg in stages(m):
         for p in (stg.get("eq") or {}).get("phases", []):
             ph = db.phase(p["name"])
             if ph:
@@ -115,7 +134,7 @@ def closure(db, written, base, allow_e):
 
 def reactant_inventory(m):
     tot = 0.0
-    for stg in (m, m.get("st2") or {}):
+    for stg in stages(m):
         for p in (stg.get("eq") or {}).get("phases", []):
             tot += p["moles"]
         r = stg.get("rx")
@@ -181,7 +200,7 @@ def observables(m):
         if nph < 40 and all(n in poised for n in names):
             obs.append(('SI("%s")' % p.name, "log", not all(n in always for n in names), _els(p.elements)))
             nph += 1
-    for stg in (m, m.get("st2") or {}):
+    for stg in stages(m):
         for p in (stg.get("eq") or {}).get("phases", []):
             ph = db.phase(p["name"])
             e = ('EQUI("%s")' % p["name"], "ext", False, _els(ph.elements) if ph else ())
@@ -234,7 +253,7 @@ def run_text(text, dbname):
         I.close()
 
 
-def rows_of(T, nobs):
+def rows_of(T, nobs, by_label=False):
     """-> dict key -> (soln label, [values]) ; key = (sim, state, soln) for initial solutions, (sim, state, step) otherwise"""
     out = {}
     if T.rows < 2:
@@ -244,7 +263,10 @@ def rows_of(T, nobs):
         raise Violation("table", "unexpected selected-output layout: %r" % (h[:8],))
     for r in T.cells[1:]:
         sim, state, soln, step = r[0], r[1], r[2], r[3]
-        key = (sim, state, soln, -99) if state == "i_soln" else (sim, state, None, step)
+        if by_label and state != "i_soln":
+            key = (2, state, soln, step)       # cell models: one reaction per cell, whatever simulation it runs in
+        else:
+            key = (sim, state, soln, -99) if state == "i_soln" else (sim, state, None, step)
         if key in out:
             raise Violation("rows", "two rows with the same label %r" % (key,))
         out[key] = (soln, r[4:])
@@ -379,7 +401,7 @@ def units_used(m, spec):
 
 def n_constituents(m):
     n = sum(len(s["comps"]) for s in m["sols"])
-    for stg in (m, m.get("st2") or {}):
+    for stg in stages(m):
         n += len((stg.get("eq") or {}).get("phases", [])) + len((stg.get("rx") or {}).get("items", []))
         n += len((stg.get("ex") or {}).get("items", [])) + len((stg.get("su") or {}).get("sites", []))
         n += len((stg.get("gas") or {}).get("comps", [])) + len((stg.get("kin") or {}).get("rates", []))
@@ -408,14 +430,14 @@ def check_case(case, ctx):
             ctx.event("one_sided_error")
         raise Discard("run_error")
     nobs = len(obs)
-    RA, RB = rows_of(TA, nobs), rows_of(TB, nobs)
+    RA, RB = rows_of(TA, nobs, bool(m.get("cells"))), rows_of(TB, nobs, bool(m.get("cells")))
     solmap = info["solmap"]
     ext = info["ext"]
     inventory = reactant_inventory(m)
     # map A's keys into B's numbering
     mapped = {}
     for key, v in RA.items():
-        if key[1] == "i_soln":
+        if key[1] == "i_soln" or m.get("cells"):
             key2 = (key[0], key[1], solmap.get(key[2], key[2]), key[3])
         else:
             key2 = key
@@ -469,9 +491,9 @@ def check_case(case, ctx):
         else:
             # batch reactions and the initial exchange / surface / gas-phase calculations solve pe from the H and O balance
             nreact += state == "react"
-            poised = state == "react" and stage_buffered(m if sim == 1 else (st2 or {}))
+            poised = state == "react" and stage_buffered(stage_for(m, sim, keyA[2]))
         # row labels under renumbering (reaction rows show the solution or the mix number that was used)
-        if fam == "N" and state != "i_soln":
+        if fam == "N" and state != "i_soln" and not m.get("cells"):
             stg = m if sim == 1 else st2
             direct = len(stg["src"]) == 1 and stg["src"][0][1] == 1.0
             if state == "react":
@@ -585,7 +607,7 @@ def check_case(case, ctx):
         # this row, SYS of one of ITS elements differs between the views by more than 10x the mass-balance criterion (but
         # < 1e-4 relative) while the other elements are conserved to that criterion.  Such pairs are excluded and counted (a "strict" case, as in the known replay, is not excluded).
         if state == "react" and not case.get("strict") and not info["bitwise"]:
-            stg_ = m if sim == 1 else (st2 or {})
+            stg_ = stage_for(m, sim, keyA[2])
             used_up = set()
             for p_ in (stg_.get("eq") or {}).get("phases", []):
                 j_ = [j for j, o in enumerate(obs) if o[0] == 'EQUI("%s")' % p_["name"]]
@@ -668,6 +690,9 @@ def check_case(case, ctx):
     nrc = sum(1 for k in ("eq", "rx", "ex", "su", "gas", "kin") if m.get(k))
     classes.append("reactants=%d" % nrc)
     classes.append("solutions=%d" % len(m["sols"]))
+    if m.get("cells"):
+        classes.append("cells:%s" % m["mode"])
+        classes.append("cells=%d" % len(m["cells"]))
     if st2:
         classes.append("second_simulation")
     if len(m["src"]) > 1:
